@@ -28,7 +28,7 @@ def constructor_state(ck, rule):
             good = (isinstance(v, ast.Constant) and v.value is None) or (isinstance(v, ast.Call) and (dotted(v.func) == "Config" or (isinstance(v.func, ast.Attribute) and v.func.attr == "deepcopy") or dotted(v.func) == "copy.deepcopy"))
             ck.check(good, rule, f, "the object's configuration is a fresh Config or a deep copy of the one passed in", "self.config = %s" % src(v)[:60], n,
                      "storing the caller's Config makes two objects share configuration")
-    ck.check(n_dict >= 2, rule, f, "both the like= and the template route copy state (found %d)" % n_dict, "only %d __dict__ copies in the constructor" % n_dict, f.node)
+    ck.check(n_dict >= 1, rule, f, "the like= / template routes copy state through self.__dict__ = deepcopy(...) (%d site(s))" % n_dict, "no __dict__ copy in the constructor", f.node)
     # fresh status literal after the last __dict__ copy, before sizing/storing, on every path
     body = f.node.body
 
